@@ -97,7 +97,9 @@ func genFn(family string) func(t *rapid.T) FnIn {
 			in.Weak = true
 			for i := range args {
 				if rapid.Bool().Draw(t, "weakenarg") {
-					w, _ := gen.Weaken(t, args[i], false)
+					// half of the weakenings may use the type-unknown DynamicVal (at the
+					// root and in tuple / object member positions)
+					w, _ := gen.Weaken(t, args[i], rapid.Bool().Draw(t, "weakendyn"))
 					args[i] = w
 				}
 			}
